@@ -65,5 +65,7 @@ PlainLines == LinesOf(ModelOf(deps, layout).blocks, 1)
 C17_Inert == IsDecorated => Strip(Decorated(PlainLines, deco)) = PlainLines
 DEmit == IsDecorated => PrintT(ToJson([blocks |-> BlocksJson(ModelOf(deps, layout).blocks), deco |-> deco,
                   delta |-> "0.25", names |-> NameOrder, comp_of |-> mi.cp,
-                  cases |-> [ii \in 1..Len(Inputs) |-> [input |-> InputJson(Inputs[ii]), expect |-> Expect(Inputs[ii])]]]))
+                  \* the expectations belong to the plain model: emitted once per base model (with its "indent" decoration)
+                  cases |-> IF deco.place = "indent" THEN [ii \in 1..Len(Inputs) |-> [input |-> InputJson(Inputs[ii]), expect |-> Expect(Inputs[ii])]]
+                            ELSE <<>>]))
 =============================================================================
